@@ -128,6 +128,8 @@ pub struct ImageSpec {
     /// the bytes behind the header's l1_size entries, up to the end of the table's last cluster,
     /// hold junk (they are not part of the table: any content is legal there)
     pub l1_tail_junk: bool,
+    /// free host clusters inside the file hold junk (legal: nothing refers to them)
+    pub free_junk: bool,
     /// version 3 header_length (104 = no compression-type byte, as written by old qemu; > 112 = unknown additional fields, zero); 0 = 112
     pub header_length: u32,
     /// number of free host clusters left between consecutive allocations
@@ -165,6 +167,7 @@ impl ImageSpec {
             refcount_last: false,
             short_l1: false,
             header_length: 0,
+            free_junk: false,
             l1_tail_junk: false,
             gap: 0,
             backing_name: None,
@@ -459,6 +462,15 @@ pub fn build_image(spec: &ImageSpec) -> Built {
         bytes[o..o + payload.len()].copy_from_slice(payload);
     }
 
+    if spec.free_junk {
+        for c in 1..file_clusters {
+            if !refs.contains_key(&c) {
+                for b in 0..blocks_per_cluster {
+                    fill_block(&mut bytes[(c << cb) + b * BLK..(c << cb) + (b + 1) * BLK], word(0xDEAD02, (c * blocks_per_cluster + b) as u32));
+                }
+            }
+        }
+    }
     // ----- header -----
     let hlen: usize = if spec.version == 2 { 72 } else if spec.header_length != 0 { spec.header_length as usize } else { 112 };
     put32(&mut bytes, 0, MAGIC);
